@@ -22,6 +22,7 @@ EXPLANATION = (
     'as a runtime fact are NOT decided.')
 EXPLANATION += ' Added after the seeded-change rounds: ' + "D3 also: the owner's recall flag is raised (release) before the waiting-threads monitor is notified."
 EXPLANATION += ' Added in the third session (round-3 seeds and the findings they led to): ' + 'D5: a cancelled resume task still continues the suspended code (cancel() does what execute() does).'
+EXPLANATION += ' Added later in the fourth round: ' + 'D3 also: the recall flag is the last thing recall_owner writes into the suspend point.  D2 also: r1::resume advertises the resume task with a work type whose advertise_new_work instantiation can switch mandatory concurrency on, and the predicate under which out_of_work switches it off looks at the resume stream.'
 ASSUMPTIONS = ['__TBB_RESUMABLE_TASKS configuration (Linux)', 'co_context::resume switches stacks and returns when resumed']
 ND = ['the stack switch itself (co_context)', 'continuation on exactly one thread as a runtime fact']
 
